@@ -74,6 +74,8 @@ def fits(t, k):
 
 def to_sexp(e):
     k = e[0]
+    if k == "sh":
+        return to_sexp(e[2])
     if k == "p":
         return f"(p {e[1]} {ty_str(e[3])})"
     if k == "lit":
@@ -132,6 +134,8 @@ def lit_py(t, v):
 
 def to_py(e):
     k = e[0]
+    if k == "sh":
+        return f"f{e[1]}"
     if k == "p":
         return f"q{e[1]}" if e[2] else f"self.p{e[1]}"
     if k == "lit":
@@ -214,7 +218,7 @@ def arg_type(arg):
 
 def children(e):
     k = e[0]
-    if k in ("p", "lit", "i"):
+    if k in ("p", "lit", "i", "sh"):
         return []
     if k in ("ar", "bo", "cmp"):
         return [e[2], e[3]]
@@ -227,7 +231,7 @@ def children(e):
     return [x for x in e[1:] if isinstance(x, tuple) and x and isinstance(x[0], str) and x[0] in KINDS_]
 
 
-KINDS_ = {"p", "lit", "i", "ar", "bo", "inv", "neg", "abs", "cmp", "chain", "shl", "shr", "cat", "idx", "slc", "idxrt",
+KINDS_ = {"p", "lit", "i", "sh", "ar", "bo", "inv", "neg", "abs", "cmp", "chain", "shl", "shr", "cat", "idx", "slc", "idxrt",
           "sgn", "uns", "bv", "rsz", "truth", "not", "and", "or", "any", "all", "ite", "sel"}
 
 
@@ -238,6 +242,8 @@ def size(e):
 def shape(e):
     """canonical operator/operand-kind shape (widths and values stripped): the stable part of a signature"""
     k = e[0]
+    if k == "sh":
+        return "shared[" + shape(e[2]) + "]"
     if k == "p":
         return e[3][0]
     if k == "lit":
@@ -252,11 +258,53 @@ def ops_in(e, acc):
     k = e[0]
     if k in ("ar", "bo", "cmp"):
         acc.append(f"{k}-{e[1]}")
+    elif k == "sh":
+        acc.append("shared-object")
+        ops_in(e[2], acc)
     elif k not in ("p", "lit", "i"):
         acc.append(k)
     for c in children(e):
         ops_in(c, acc)
     return acc
+
+
+def shared_of(shadows):
+    """named sub-objects of a design: list of (tree, type, where) - stored under the key "shared" of the shadows dict"""
+    return shadows.get("shared", [])
+
+
+def sj(shadows):
+    """json-able form of the shadows dict (string keys only)"""
+    return {str(k): v for k, v in shadows.items()}
+
+
+def shadow_ports(shadows):
+    return {k: v for k, v in shadows.items() if k != "shared"}
+
+
+def shared_used(e, acc=None):
+    acc = set() if acc is None else acc
+    if e[0] == "sh":
+        acc.add(e[1])
+    for c in children(e):
+        shared_used(c, acc)
+    return acc
+
+
+def tree_type(e):
+    """type of an object chain (port / slice / view / constant index)"""
+    k = e[0]
+    if k == "p":
+        return e[3]
+    if k == "sh":
+        return e[3]
+    if k == "slc":
+        return ("bv", e[2] - e[3] + 1)
+    if k in ("uns", "sgn", "bv"):
+        return ({"uns": "u", "sgn": "s", "bv": "bv"}[k], tree_type(e[1])[1])
+    if k == "idx":
+        return BIT
+    raise AssertionError(e)
 
 
 # ---------------------------------------------------------------------------------------------------
@@ -265,11 +313,63 @@ def ops_in(e, acc):
 
 
 class Gen:
-    def __init__(self, rng, ports, maxw, shadows):
+    def __init__(self, rng, ports, maxw, shadows, shared=()):
         self.rng = rng
         self.ports = ports  # list of types
         self.maxw = maxw
         self.shadows = shadows  # set of port indices that have a shadow signal
+        self.shared = list(shared)  # [(tree, type, where)]: named sub-objects reused by several expressions
+
+    def sh(self, j):
+        return ("sh", j, self.shared[j][0], self.shared[j][1])
+
+    def chain(self, i, steps, want_nested=True):
+        """an object chain over port i: nested slices (enclosing slice usually not starting at bit 0), slices of
+        views, views of slices - everything that stays a reference into the port (no Temporary)"""
+        r = self.rng
+        e = self.port(i)
+        nslices = 0
+        for _ in range(steps):
+            t = tree_type(e)
+            w = t[1]
+            if w >= 2 and (r.random() < 0.65 or (want_nested and nslices < 2)):
+                # keep at least 2 bits while further slices are wanted
+                minw = 2 if (want_nested and nslices < 1 and w >= 3) else 1
+                nw = r.randint(minw, w - 1) if w - 1 >= minw else w
+                lo_max = w - nw
+                lo = r.randint(1, lo_max) if (lo_max >= 1 and r.random() < 0.8) else r.randint(0, lo_max)
+                e = ("slc", e, lo + nw - 1, lo)
+                nslices += 1
+            else:
+                e = (r.choice([v for v, kk in (("uns", "u"), ("sgn", "s"), ("bv", "bv")) if kk != t[0]]), e)
+        return e
+
+    def shared_leaf(self, t):
+        """a leaf of type t built on one of the design's shared sub-objects (the object itself, a view of it, an
+        index or a slice into it), or None"""
+        r = self.rng
+        if not self.shared:
+            return None
+        order = list(range(len(self.shared)))
+        r.shuffle(order)
+        for j in order:
+            st = self.shared[j][1]
+            if st == t:
+                return self.sh(j)
+            if t == BIT and is_vec(st):
+                return ("idx", self.sh(j), r.randrange(st[1]))
+            if is_vec(t) and is_vec(st):
+                view = {"u": "uns", "s": "sgn", "bv": "bv"}[t[0]]
+                if st[1] == t[1]:
+                    return (view, self.sh(j))
+                if st[1] > t[1]:
+                    lo = r.randrange(st[1] - t[1] + 1)
+                    sl = ("slc", self.sh(j), lo + t[1] - 1, lo)
+                    return sl if t[0] == "bv" else (view, sl)
+                if t[0] in ("u", "s") and r.random() < 0.5:
+                    base = self.sh(j) if st[0] == t[0] else (view, self.sh(j))
+                    return ("rsz", base, t[1])
+        return None
 
     def port(self, i):
         sh = i in self.shadows and self.rng.random() < 0.5
@@ -294,7 +394,13 @@ class Gen:
         """smallest NON-constant expression of type t (constant-only sub-expressions are folded at compile
         time - property C09 - and typed constants are only generated as right operands, see `maybe_lit`)"""
         r = self.rng
+        if self.shared and t != BOOL and r.random() < 0.45:
+            e = self.shared_leaf(t)
+            if e is not None:
+                return e
         if t == BOOL:
+            if self.shared and r.random() < 0.4:
+                return ("truth", self.sh(r.randrange(len(self.shared))))
             c = self.ports_of(lambda x: x[0] in ("u", "s", "bit", "bv"))
             return ("truth", self.port(r.choice(c)))
         exact = self.ports_of(lambda x: x == t)
@@ -602,16 +708,24 @@ def design_source(ports, shadows, exprs, out_types, clocked, record=True):
     for k, t in enumerate(out_types):
         lines.append(f"    o{k} = Port.output({ty_py(t)})\n")
     lines.append("\n    def architecture(self):\n")
+    shared = shared_of(shadows)
+    shadows = shadow_ports(shadows)
     for i, dflt in sorted(shadows.items()):
         lines.append(f"        q{i} = Signal[{ty_py(ports[i])}]({lit_py(ports[i], dflt) if ports[i][0] == 'bv' else dflt}, name='q{i}')\n")
     if shadows:
         lines.append("\n        @std.concurrent\n        def shadow():\n")
         for i in sorted(shadows):
             lines.append(f"            q{i}.next = self.p{i}\n")
+    for j, (tree, _, where) in enumerate(shared):
+        if where == "arch":
+            lines.append(f"        f{j} = {to_py(tree)}\n")
     if clocked:
         lines.append("\n        @std.sequential(std.Clock(self.clk))\n        def logic():\n")
     else:
         lines.append("\n        @std.concurrent\n        def logic():\n")
+    for j, (tree, _, where) in enumerate(shared):
+        if where != "arch":
+            lines.append(f"            f{j} = {to_py(tree)}\n")
     for k, e in enumerate(exprs):
         lines.append(f"            r{k} = {to_py(e)}\n")
         if record:
@@ -934,11 +1048,70 @@ def build_designs(ctx, n_designs, per_design, depth, small, maxw, clocked_ratio=
                     shadows[i] = rng.choice([0, (1 << t[1]) - 1, rng.randrange(1 << t[1])])
         g = Gen(rng, ports, maxw, set(shadows))
         exprs = []
+        add_shared(rng, g, shadows, exprs, rng.randint(0, 2))
         for _ in range(per_design):
             t = root_type(rng, maxw)
             exprs.append(g.gen(t, rng.randint(1, depth)))
+        rng.shuffle(exprs)
         designs.append(DesignCase(ports, shadows, exprs, rng.random() < clocked_ratio, small))
     return designs
+
+
+def add_shared(rng, g, shadows, exprs, n, direct=True):
+    """give the design n named sub-objects (nested slices / slices of views / views of slices) and, for each, a few
+    outputs that read the SAME object directly and through several views - sharing of one qualifier object between
+    several printed expressions is what a per-expression generator never produces"""
+    cands = [i for i, t in enumerate(g.ports) if is_vec(t) and t[1] >= 3]
+    if not cands or n <= 0:
+        return
+    shared = []
+    for _ in range(n):
+        i = rng.choice(cands)
+        tree = g.chain(i, rng.randint(2, 4))
+        shared.append((tree, tree_type(tree), rng.choice(["arch", "logic"])))
+    shadows["shared"] = shared
+    g.shared = shared
+    if not direct:
+        return
+    for j, (tree, t, _) in enumerate(shared):
+        f = g.sh(j)
+        uses = []
+        if is_vec(t):
+            w = t[1]
+            uses += [f, ("uns", f), ("sgn", f), ("bv", f), ("idx", f, rng.randrange(w)), ("inv", ("uns", f)),
+                     ("shr", ("sgn", f), ("i", 1)), ("ar", "add", ("uns", f), g.gen(("u", rng.randint(1, w)), 1)),
+                     ("cmp", rng.choice(COPS), ("sgn", f), ("i", rng.randint(-2, 2))), ("cat", f, ("bv", f))]
+            if w >= 2:
+                lo = rng.randrange(w - 1)
+                uses += [("slc", f, rng.randint(lo, w - 1), lo), ("uns", ("slc", f, w - 1, 1))]
+        else:
+            uses += [f, ("inv", f), ("truth", f)]
+        rng.shuffle(uses)
+        exprs.extend(uses[: rng.randint(3, 5)])
+
+
+def slice_designs(ctx):
+    """designs dedicated to sub-object sharing: one vector port of 6..8 bits (+ a small operand), 2-3 shared object
+    chains, all their views / indices / sub-slices as separate outputs plus random expressions over them; <= 11 input
+    bits, so every design is swept over ALL operand valuations"""
+    rng = ctx.rng
+    out = []
+    for n in range(ctx.scale(6, 40)):
+        w0 = rng.randint(5, 8)
+        ports = [(rng.choice(["bv", "u", "s"]), w0), (rng.choice(["u", "s"]), rng.randint(1, 10 - w0)), BIT]
+        shadows = {}
+        if rng.random() < 0.3:
+            shadows[0] = rng.randrange(1 << (w0 - 1))
+        g = Gen(rng, ports, 4, set(shadows))
+        exprs = []
+        g.ports = [ports[0]]  # chains over the wide port
+        add_shared(rng, g, shadows, exprs, rng.randint(2, 3))
+        g.ports = ports
+        for _ in range(4):
+            exprs.append(g.gen(root_type(rng, 4), 2))
+        rng.shuffle(exprs)
+        out.append(DesignCase(ports, shadows, exprs, n % 3 == 2, True))
+    return out
 
 
 def model_types(exprs):
@@ -949,20 +1122,25 @@ def model_types(exprs):
     return ans
 
 
-def check_single(ports, shadows, expr, clocked, vals):
-    """compile + simulate one expression alone; returns dict(status=..., ...)"""
-    mt = model_types([expr])[0]
-    t = parse_model_type(mt)
-    if t is None:
+def check_single(ports, shadows, expr, clocked, vals, context=()):
+    """compile + simulate one expression (after the `context` expressions, which are emitted first as further
+    outputs of the same design - needed when a failure depends on an object shared with another expression);
+    returns dict(status=..., ...)"""
+    context = list(context)
+    mts = model_types(context + [expr])
+    mt = mts[-1]
+    ts = [parse_model_type(m) for m in mts]
+    if any(t is None for t in ts):
         return {"status": "model-reject", "model_type": mt}
-    src = design_source(ports, shadows, [expr], [t], clocked)
+    n = len(ts)
+    src = design_source(ports, shadows, context + [expr], ts, clocked)
     c = compile_designs([src])[0]
     if not c["ok"]:
         return {"status": "rejected", "errtype": c["errtype"], "err": c["err"], "source": src, "model_type": mt}
-    real_t = canon_real_type(c["types"].get(0))
+    real_t = canon_real_type(c["types"].get(n - 1))
     spec = lean_io.query("C02", ["eval " + to_sexp(expr) + " " + " ".join(env_str(v) for v in vals)])[0].split(" ")
     inits = [v for v, s in zip(vals, spec) if s != "undef"][:4] + list(vals[:2])
-    sim = _sim_task((c["vhdl"], len(ports), 1, clocked, vals, inits))
+    sim = _sim_task((c["vhdl"], len(ports), n, clocked, vals, inits))
     res = {"status": "ok", "source": src, "vhdl": c["vhdl"], "model_type": mt, "real_type": real_t, "fail": None}
     if sim[0] != "ok":
         if all(s == "undef" for s in spec):
@@ -978,16 +1156,16 @@ def check_single(ports, shadows, expr, clocked, vals):
         if isinstance(o, tuple):
             res["fail"] = {"valuation": list(v), "expected": int(s), "observed": f"{o[1]}: {o[2]}"}
             break
-        if o[0] is None or int(s) != o[0]:
-            res["fail"] = {"valuation": list(v), "expected": int(s), "observed": o[0]}
+        if o[-1] is None or int(s) != o[-1]:
+            res["fail"] = {"valuation": list(v), "expected": int(s), "observed": o[-1]}
             break
     return res
 
 
-def shrink(ports, shadows, expr, clocked, vals):
+def shrink(ports, shadows, expr, clocked, vals, context=()):
     """greedy: replace the expression by a failing sub-expression while one exists"""
     best = expr
-    best_res = check_single(ports, shadows, expr, clocked, vals)
+    best_res = check_single(ports, shadows, expr, clocked, vals, context)
     if best_res.get("fail") is None and best_res["status"] == "ok":
         return None, None
     improved = True
@@ -998,7 +1176,7 @@ def shrink(ports, shadows, expr, clocked, vals):
             if c[0] in ("i",):
                 continue
             budget -= 1
-            r = check_single(ports, shadows, c, clocked, vals)
+            r = check_single(ports, shadows, c, clocked, vals, context)
             if r["status"] in ("ok", "sim-error") and r.get("fail") is not None:
                 best, best_res, improved = c, r, True
                 break
@@ -1018,9 +1196,9 @@ def run(ctx: Ctx):
                 "more than one value over the explored valuations; distinct = distinct (expression, ports, context)")
     import os
     dev = float(os.environ.get("C02_DEV_SCALE", "1"))   # development only: shrink the run
-    n_small = max(1, int(ctx.scale(30, 200) * dev))
-    n_wide = max(1, int(ctx.scale(12, 80) * dev))
-    per_design = ctx.scale(10, 14)
+    n_small = max(1, int(ctx.scale(24, 200) * dev))
+    n_wide = max(1, int(ctx.scale(10, 80) * dev))
+    per_design = ctx.scale(9, 14)
     depth = ctx.scale(3, 4)
     exhaustive_bits = ctx.scale(11, 12)
     n_random = ctx.scale(160, 500)
@@ -1030,6 +1208,8 @@ def run(ctx: Ctx):
         build_designs(ctx, n_wide, per_design, depth, False, 64)
     # the operator / operand-kind matrix, one tiny expression each (always swept exhaustively)
     designs += matrix_designs(ctx)
+    # sub-object sharing: nested slices / views reused by several outputs (always swept exhaustively)
+    designs += slice_designs(ctx)
 
     # ---- (a) model typing, designs, compile
     all_exprs = [e for d in designs for e in d.exprs]
@@ -1059,7 +1239,7 @@ def run(ctx: Ctx):
             continue
         # a well-typed expression was rejected: find which one(s) by compiling them one by one
         singles = [design_source(d.ports, d.shadows, [e], [t], d.clocked) for e, t in zip(d.exprs, d.types)]
-        rs = compile_designs(singles)
+        rs = [c] if len(d.exprs) == 1 else compile_designs(singles)
         good = []
         for e, t, r, s in zip(d.exprs, d.types, rs, singles):
             if r["ok"]:
@@ -1070,7 +1250,10 @@ def run(ctx: Ctx):
         d.exprs = [e for e, _ in good]
         d.types = [t for _, t in good]
         d.src = design_source(d.ports, d.shadows, d.exprs, d.types, d.clocked)
-        extra.append(d)
+        if d.exprs:
+            extra.append(d)
+        else:
+            d.c = {"ok": False}
     if extra:
         rs = compile_designs([d.src for d in extra])
         for d, r in zip(extra, rs):
@@ -1090,7 +1273,7 @@ def run(ctx: Ctx):
                 n_type_diff += 1
                 ctx.report(f"result-type:{shape(e)}",
                            f"result type of `{to_py(e)}` is {real}, the documented width rules give {ty_str(t)}",
-                           {"kind": "type", "ports": d.ports, "shadows": d.shadows, "expr": e, "clocked": d.clocked,
+                           {"kind": "type", "ports": d.ports, "shadows": sj(d.shadows), "expr": e, "clocked": d.clocked,
                             "expected_type": ty_str(t), "observed_type": real, "source": d.src})
     ctx.obligation("correspondence (a): accept/reject and result type+width of every generated well-typed expression = typeOf",
                    n_rejected == 0 and n_type_diff == 0, detail=f"{len(all_exprs)} expressions, {n_rejected} rejected, {n_type_diff} type differences")
@@ -1182,7 +1365,7 @@ def run(ctx: Ctx):
                              "valuations": len(d.vals), "exhaustive": d.exh})
             if bad is not None:
                 n_mismatch += 1
-                if n_mismatch <= 12:
+                if n_mismatch <= 6:  # enough minimised replays; the count is still in the obligation
                     report_value(ctx, d, e, bad)
     ctx.extra["valuations_skipped_division_by_zero"] = n_skipped
     ctx.extra["operand_valuations_compared"] = n_evals
@@ -1198,6 +1381,8 @@ def run(ctx: Ctx):
 
 def report_reject(ctx, d, e, t, r, src):
     sig = f"reject:{shape(e)}"
+    if sig in ctx.known_hit:
+        return False  # this very rejection (same shape, already minimal) was reported as a known finding in this run
     # minimise: a rejected sub-expression?
     best, best_r, best_src = e, r, src
     changed = True
@@ -1218,26 +1403,50 @@ def report_reject(ctx, d, e, t, r, src):
                 break
     return ctx.report(f"reject:{shape(best)}",
                f"well-typed expression `{to_py(best)}` (documented type {model_types([best])[0]}) is rejected: {best_r['errtype']}: {best_r['err'][-160:]}",
-               {"kind": "reject", "ports": d.ports, "shadows": d.shadows, "expr": best, "clocked": d.clocked, "source": best_src,
+               {"kind": "reject", "ports": d.ports, "shadows": sj(d.shadows), "expr": best, "clocked": d.clocked, "source": best_src,
                 "error": best_r})
 
 
 def report_value(ctx, d, e, bad):
     v, exp, obs = bad
     vals = d.vals if len(d.vals) <= 1500 else ([v] + d.vals[:600])
+    context = []
     small, res = shrink(d.ports, d.shadows, e, d.clocked, vals)
+    if small is None and shared_used(e):
+        # not reproducible alone: the failure may need another expression that reads the same shared sub-object
+        # (emitted before this one); find one such partner, then shrink with it as context
+        k = d.exprs.index(e)
+        mine = shared_used(e)
+        partners = [c for c in d.exprs[:k] if shared_used(c) & mine] + [c for c in d.exprs[k + 1:] if shared_used(c) & mine]
+        for c in sorted(partners, key=size)[:8]:
+            r = check_single(d.ports, d.shadows, e, d.clocked, vals, [c])
+            if r["status"] in ("ok", "sim-error") and r.get("fail") is not None:
+                # the partner itself can usually be reduced to the bare shared object or one view of it
+                for c2 in [("sh", j, d.shadows["shared"][j][0], d.shadows["shared"][j][1]) for j in sorted(shared_used(c) & mine)]:
+                    r2 = check_single(d.ports, d.shadows, e, d.clocked, vals, [c2])
+                    if r2["status"] in ("ok", "sim-error") and r2.get("fail") is not None:
+                        c = c2
+                        break
+                context = [c]
+                small, res = shrink(d.ports, d.shadows, e, d.clocked, vals, context)
+                break
     if small is None:
         # not reproducible alone: report the design as it is
         ctx.report(f"value-in-design:{shape(e)}",
                    f"`{to_py(e)}` differs inside its design only (valuation {v}: expected {exp}, observed {obs})",
-                   {"kind": "design", "ports": d.ports, "shadows": d.shadows, "exprs": d.exprs, "clocked": d.clocked,
-                    "valuation": list(v), "expected": exp, "observed": obs, "source": d.src}, no_failing_input=False)
+                   {"kind": "design", "ports": d.ports, "shadows": sj(d.shadows), "exprs": d.exprs, "clocked": d.clocked,
+                    "valuation": list(v), "expected": exp, "observed": obs, "source": d.src, "failing": d.exprs.index(e)},
+                   no_failing_input=False)
         return
     f = res["fail"]
-    ctx.report(f"value:{shape(small)}",
-               f"`{to_py(small)}` ({'clocked' if d.clocked else 'concurrent'}) on operand valuation {f['valuation']} "
+    used = sorted(shared_used(small) | (shared_used(context[0]) if context else set()))
+    objs = "; ".join(f"f{j} = {to_py(d.shadows['shared'][j][0])}" for j in used)
+    sig = f"value:{shape(small)}" + (f"|after:{shape(context[0])}" if context else "")
+    ctx.report(sig,
+               f"`{to_py(small)}`" + (f" (with {objs})" if objs else "") + (f", emitted after `{to_py(context[0])}`" if context else "") +
+               f" ({'clocked' if d.clocked else 'concurrent'}) on operand valuation {f['valuation']} "
                f"(ports {[ty_str(p) for p in d.ports]}): documented value {f['expected']}, emitted logic gives {f['observed']}",
-               {"kind": "value", "ports": d.ports, "shadows": d.shadows, "expr": small, "clocked": d.clocked,
+               {"kind": "value", "ports": d.ports, "shadows": sj(d.shadows), "expr": small, "context": context, "clocked": d.clocked,
                 "valuation": f["valuation"], "expected": f["expected"], "observed": f["observed"],
                 "source": res.get("source"), "vhdl": res.get("vhdl"), "original_expr": to_py(e)})
 
@@ -1252,12 +1461,12 @@ def handle_design_failure(ctx, d, msg, vals):
             f = res["fail"]
             ctx.report(f"value:{shape(small)}",
                        f"`{to_py(small)}`: the emitted VHDL cannot be executed / gives a wrong value: {f['observed']}",
-                       {"kind": "value", "ports": d.ports, "shadows": d.shadows, "expr": small, "clocked": d.clocked,
+                       {"kind": "value", "ports": d.ports, "shadows": sj(d.shadows), "expr": small, "clocked": d.clocked,
                         "valuation": f["valuation"], "expected": f["expected"], "observed": f["observed"],
                         "source": res.get("source"), "vhdl": res.get("vhdl")})
     if not found:
         ctx.report("design-not-executable", f"emitted VHDL of a generated design cannot be executed: {msg}",
-                   {"kind": "design", "ports": d.ports, "shadows": d.shadows, "exprs": d.exprs, "clocked": d.clocked, "source": d.src,
+                   {"kind": "design", "ports": d.ports, "shadows": sj(d.shadows), "exprs": d.exprs, "clocked": d.clocked, "source": d.src,
                     "error": msg, "valuation": list(vals[0]) if vals else None}, no_failing_input=True)
 
 
@@ -1416,11 +1625,18 @@ def replay(ctx, data):
     r = data["replay"]
     kind = r.get("kind")
     ports = [tuple(p) for p in r["ports"]]
-    shadows = {int(k): v for k, v in r.get("shadows", {}).items()}
+    shadows = {int(k): v for k, v in r.get("shadows", {}).items() if k != "shared"}
+    if r.get("shadows", {}).get("shared"):
+        shadows["shared"] = [(_expr_from_json(t), tuple(ty), where) for t, ty, where in r["shadows"]["shared"]]
     if kind in ("value", "type", "reject"):
         e = _expr_from_json(r["expr"])
+        context = [_expr_from_json(x) for x in r.get("context", [])]
         vals = [tuple(r["valuation"])] if r.get("valuation") else [tuple(0 for _ in ports)]
-        res = check_single(ports, shadows, e, r["clocked"], vals)
+        res = check_single(ports, shadows, e, r["clocked"], vals, context)
+        for j, (tree, _, where) in enumerate(shared_of(shadows)):
+            print(f"shared     : f{j} = {to_py(tree)}   (bound in {where})")
+        for c in context:
+            print("emitted first:", to_py(c))
         print("expression :", to_py(e))
         print("model type :", res.get("model_type"), " real type:", res.get("real_type"))
         print("status     :", res["status"], res.get("errtype", ""), res.get("err", "")[-200:])
@@ -1434,8 +1650,10 @@ def replay(ctx, data):
     if kind == "design":
         exprs = [_expr_from_json(x) for x in r["exprs"]]
         bad = 0
-        for e in exprs:
-            res = check_single(ports, shadows, e, r["clocked"], [tuple(r["valuation"])] if r.get("valuation") else [tuple(0 for _ in ports)])
+        vals = [tuple(r["valuation"])] if r.get("valuation") else [tuple(0 for _ in ports)]
+        for k, e in enumerate(exprs):
+            # every expression after all the others of its design (failures may depend on shared sub-objects)
+            res = check_single(ports, shadows, e, r["clocked"], vals, exprs[:k] + exprs[k + 1:])
             if res["status"] != "ok" or res.get("fail") is not None:
                 print("fails:", to_py(e), res.get("fail"))
                 bad = 1
